@@ -12,6 +12,7 @@ import z3
 from .values import *  # noqa
 from .engine import OutOfSubset, PathEnd, Raised, Frame, exc_isa
 from . import rx
+from . import strlemmas
 
 BUILTINS = {
     "len", "str", "int", "list", "tuple", "dict", "all", "any", "type", "range", "enumerate", "iter", "next",
@@ -496,12 +497,18 @@ def str_method(eng, world, s, m, args, kwargs, node):
             return VInt(r)
         return VStr(r, s.isbytes)
     if m == "find" and len(args) == 1:
-        return VInt(z3.IndexOf(S(z), S(args[0].z), 0))
+        r = z3.IndexOf(S(z), S(args[0].z), 0)
+        # valid facts tying find() to `in` (they let the string-free abstraction prune paths)
+        eng.assume(r >= -1)
+        eng.assume((r == -1) == z3.Not(z3.Contains(S(z), S(args[0].z))))
+        return VInt(r)
     if m == "index" and len(args) == 1:
         sub = S(args[0].z)
         if not eng.branch(z3.Contains(S(z), sub)):
             eng.raise_("ValueError", site=node.lineno)
-        return VInt(z3.IndexOf(S(z), sub, 0))
+        r = z3.IndexOf(S(z), sub, 0)
+        eng.assume(z3.And(r >= 0, r + z3.Length(sub) <= z3.Length(S(z))))
+        return VInt(r)
     if m == "rfind" and len(args) == 1:
         sub = S(args[0].z)
         r = sfun("py_rfind", STR, STR, INT)(S(z), sub)
@@ -516,6 +523,10 @@ def str_method(eng, world, s, m, args, kwargs, node):
         a = args[0]
         if isinstance(a, VTuple):
             return VBool(z3.Or(*[f(S(eng.force(x).z), S(z)) for x in a.items]))
+        if is_conc(a.z) and not is_conc(z):
+            return VBool(strlemmas.prefixof(a.z, z) if m == "startswith" else strlemmas.suffixof(a.z, z))
+        if m == "startswith" and not is_conc(z):
+            return VBool(strlemmas.prefixof_terms(S(a.z), z))
         return VBool(f(S(a.z), S(z)))
     if m in ("strip", "lstrip", "rstrip") and not args:
         return _strip_model(eng, s, m)
@@ -1297,6 +1308,22 @@ def urllib_unquote(eng, world, args, kwargs, node):
     else:
         r = sfun("repl_decode", STR, STR)(b)
     return VStr(r)
+
+
+@ext("mimetypes.guess_type")
+def mimetypes_guess_type(eng, world, args, kwargs, node):
+    eng.assumptions_used.add("mimetypes.guess_type(name, strict) is a deterministic function of the name and the configured tables (uninterpreted); returns (type|None, encoding|None)")
+    name = eng.force(args[0])
+    strict = kwargs.get("strict", args[1] if len(args) > 1 else VBool(True))
+    tag = "s" if (isinstance(eng.force(strict), VBool) and eng.force(strict).z is True) else "ns"
+    z = S(name.z)
+    t = sfun("mime_type_" + tag, STR, STR)(z)
+    e = sfun("mime_enc_" + tag, STR, STR)(z)
+    tn = sfun("mime_type_none_" + tag, STR, BOOL)(z)
+    en = sfun("mime_enc_none_" + tag, STR, BOOL)(z)
+    eng.assume(z3.Implies(z3.Not(tn), z3.Length(t) > 0))
+    eng.assume(z3.Implies(z3.Not(en), z3.Length(e) > 0))
+    return VTuple([VOpt(tn, VStr(t)), VOpt(en, VStr(e))])
 
 
 def ext_open(eng, world, args, kwargs, node):
